@@ -126,7 +126,7 @@ impl DefaultMetricSearcher {
         let cached_pos = self.cached_pos.lock().unwrap();
         if cache_ok {
             for (j, v) in filenames.iter().enumerate() {
-                if v != &cached_pos.metric_filename {
+                if v == &cached_pos.metric_filename {
                     i = j;
                     offset_in_idx = cached_pos.cur_offset_in_idx;
                     break;
@@ -198,7 +198,10 @@ impl DefaultMetricSearcher {
         let mut idx_file = open_file_and_seek_to(idx_filename, cached_pos.cur_offset_in_idx)?;
 
         let mut buffer: [u8; 8] = [0; 8];
-        idx_file.read_exact(&mut buffer)?;
+        if idx_file.read_exact(&mut buffer).is_err() {
+            // nothing indexed at the cached position: the cache cannot be used
+            return Ok(false);
+        }
         let sec = u64::from_be_bytes(buffer);
 
         Ok(sec == cached_pos.cur_sec_in_idx)
